@@ -168,6 +168,31 @@ func EvidenceOnly(c *run.Ctx, wl chw.WorkCfg, h *chw.History) { check(c, wl, h, 
 func check(c *run.Ctx, wl chw.WorkCfg, h *chw.History, evOnly bool) {
 	a := chw.Analyze(h.Items, h.Blocks)
 	ck := cfgKey(wl.Writer)
+	if !evOnly {
+		// the service boundary: a promise of a request object that carried rows is fulfilled without error only after
+		// an INSERT into the service's table was called after the hand-over and completed before the fulfilment
+		withRows, fulfilled := 0, 0
+		for _, sc := range h.Calls {
+			if sc.Rows > 0 {
+				withRows++
+				if sc.DoneT != 0 && sc.Err == "" {
+					fulfilled++
+				}
+			}
+		}
+		c.Event("service_requests_with_rows", withRows)
+		c.Event("service_promises_fulfilled_without_error", fulfilled)
+		c.Floor("service promises judged against the INSERTs between hand-over and fulfilment", 1, fulfilled)
+		seenKind := map[string]bool{}
+		for _, sc := range chw.FulfilledWithoutInsert(h.Calls, h.Blocks) {
+			if seenKind[sc.Kind] {
+				continue
+			}
+			seenKind[sc.Kind] = true
+			c.Violation("service-promise-fulfilled-without-insert/"+sc.Kind, fmt.Sprintf("cfg %s: a request object with %d row(s) was handed to the %s insert service at tick %d and its promise was fulfilled without error at tick %d, but no successful INSERT into %s was called after the hand-over and returned before the fulfilment",
+				ck, sc.Rows, sc.Kind, sc.CallT, sc.DoneT, chw.TableOfKind(sc.Kind)), map[string]any{"cfg": wl, "call": sc})
+		}
+	}
 	c.Event("requests", len(h.Items))
 	c.Event("insert_blocks", len(h.Blocks))
 	for _, b := range h.Blocks {
@@ -218,6 +243,18 @@ func check(c *run.Ctx, wl chw.WorkCfg, h *chw.History, evOnly bool) {
 			c.Floor("multi-portion body whose first portion's INSERTs failed for good while later ones succeeded", 1, 1)
 		}
 		owned := a.OwnedIdentities(i)
+		if strings.HasPrefix(it.Phase, "twins:") {
+			// which of the twins derives the stream's series row depends on who reaches the series cache first: the
+			// series row is judged at the service boundary (above), the samples per request
+			o2 := owned[:0:0]
+			for _, k := range owned {
+				if !strings.HasPrefix(k, "ts|") {
+					o2 = append(o2, k)
+				}
+			}
+			owned = o2
+			c.Floor("pushes of one new stream by several clients at once", 0, 1)
+		}
 		// interleaving classes (evidence)
 		for _, b := range h.Blocks {
 			if rec.SendT > b.CallT && rec.SendT < b.RetT && (strings.HasPrefix(b.Table, "samples") && it.Kind == "logs" || strings.HasPrefix(b.Table, "tempo_traces") && it.Kind == "spans" || strings.HasPrefix(b.Table, "profiles") && it.Kind == "profile") {
